@@ -203,7 +203,7 @@ def execute(initial, events, args, pos_rng_seed, per_file, nthreads=2):
                     if sym and all("inc_decl.f90" in str(x) for x in sym):
                         diffs.append((("include-fragment",) + tuple(k), "entities of the shared INCLUDE fragment belong to another includer"))
                         continue
-                if len(k) > 1 and isinstance(k[1], str) and re.match(r"\s*submodule\s*\(", disk.get(k[1], ""), re.I) and k[0] in ("completion", "hover", "diagnostics", "signature", "outline"):
+                if len(k) > 1 and isinstance(k[1], str) and re.match(r"\s*submodule\s*\(", disk.get(k[1], ""), re.I) and k[0] in ("completion", "hover", "diagnostics", "signature", "outline", "definition", "references"):
                     # procedures of a submodule take over the dummy arguments of the interface in the parent module when the two are linked
                     diffs.append((("submodule-signature",) + tuple(k), f"long-lived {str(a_)[:200]} != fresh {str(b_)[:200]}"))
                     continue
@@ -342,8 +342,7 @@ def run_case(ctx, i, rng):
         if k[0] in seen_kinds:
             continue
         seen_kinds.add(k[0])
-        key = {"include-fragment": "include:fragment-shared-by-several-includers-has-one-parent",
-               "submodule-signature": "submodule:implementation-signature-copied-from-interface-at-link-time"}.get(k[0], f"stale:{k[0]}")
+        key = diff_key(k)
         res.violation(key, f"battery entry {k}: {desc}; history kinds {sorted(set(kinds))}",
                       {"initial": initial, "events": events, "args": args, "seed": seed, "per_file": per_file, "entry": [str(x) for x in k]})
     if i % 40 == 0:
@@ -351,10 +350,19 @@ def run_case(ctx, i, rng):
     return res
 
 
+def diff_key(k):
+    return {"include-fragment": "include:fragment-shared-by-several-includers-has-one-parent",
+            "submodule-signature": "submodule:implementation-signature-copied-from-interface-at-link-time"}.get(k[0], f"stale:{k[0]}")
+
+
 def replay(ctx, w):
     res = Result()
     events = [tuple(e) for e in w["events"]]
     final, diffs, skipped, compared = execute(w["initial"], events, w["args"], w["seed"], w["per_file"])
-    for k, desc in (diffs or [])[:3]:
-        res.violation("replayed", f"battery entry {k}: {desc}", {"entry": [str(x) for x in k]})
+    seen_kinds = set()
+    for k, desc in (diffs or []):
+        if k[0] in seen_kinds:
+            continue
+        seen_kinds.add(k[0])
+        res.violation(diff_key(k), f"battery entry {k}: {desc}", {"entry": [str(x) for x in k]})
     return res
